@@ -4,22 +4,23 @@
 set -e
 cd "$(dirname "$0")"
 export GOFLAGS=-mod=mod GOPROXY=off GOSUMDB=off GOTOOLCHAIN=local
+REPO=${VERIF_REPO:-/repo}
 mkdir -p bin evidence replays .work
 (cd src && go build -o ../bin/vsrewrite ./cmd/vsrewrite && go build -o ../bin/vcheck ./cmd/vcheck)
 # warm: virtualise the tree once and build every harness, and the two programs the black-box rig runs
 H=.work/setup-$$
 mkdir -p "$H"
-if bin/vsrewrite -rt "$PWD/rt" -harness "$PWD/harness" -out "$PWD/$H/rw" >"$H/rw.log" 2>&1; then
+if bin/vsrewrite -repo "$REPO" -rt "$PWD/rt" -harness "$PWD/harness" -out "$PWD/$H/rw" >"$H/rw.log" 2>&1; then
   for d in harness/*/; do
     n=$(basename "$d")
-    (cd /repo && go build -overlay "$OLDPWD/$H/rw/overlay.json" -o /dev/null "./zz_verif/h/$n" >>"$OLDPWD/$H/build.log" 2>&1) || echo "setup: harness $n did not build (see $H/build.log)"
+    (cd "$REPO" && go build -overlay "$OLDPWD/$H/rw/overlay.json" -o /dev/null "./zz_verif/h/$n" >>"$OLDPWD/$H/build.log" 2>&1) || echo "setup: harness $n did not build (see $H/build.log)"
   done
 else
   echo "setup: virtualisation failed:"; tail -5 "$H/rw.log"
 fi
-if bin/vsrewrite -rt "$PWD/rt" -harness "$PWD/harness" -norewrite -out "$PWD/$H/plain" >>"$H/rw.log" 2>&1; then
-  (cd /repo && go build -overlay "$OLDPWD/$H/plain/overlay.json" -o /dev/null ./zz_verif/h/bbox >>"$OLDPWD/$H/build.log" 2>&1) || true
+if bin/vsrewrite -repo "$REPO" -rt "$PWD/rt" -harness "$PWD/harness" -norewrite -out "$PWD/$H/plain" >>"$H/rw.log" 2>&1; then
+  (cd "$REPO" && go build -overlay "$OLDPWD/$H/plain/overlay.json" -o /dev/null ./zz_verif/h/bbox >>"$OLDPWD/$H/build.log" 2>&1) || true
 fi
-(cd /repo && go build -o /dev/null ./server && go build -o /dev/null ./agent) || true
+(cd "$REPO" && go build -o /dev/null ./server && go build -o /dev/null ./agent) || true
 rm -rf "$H"
 echo "setup done"
